@@ -5,17 +5,18 @@ set -u
 ID=$1; OUT=$2; TIER=${3:-quick}
 export GOFLAGS=-mod=mod GOPROXY=off GOSUMDB=off GOTOOLCHAIN=local
 M=$(mktemp -d /tmp/mutrepo-XXXX)
-trap 'rm -rf "$M"' EXIT
+T=$(mktemp -d /tmp/tryseed-XXXX)
+trap 'rm -rf "$M" "$T"' EXIT
 rsync -a --exclude .git /repo/ "$M/"
 PKG=$(python3 -c "import json;print(json.load(open('$OUT/meta.json'))['demo_package_dir'])" | sed 's#^\./##; s#/$##')
 RUN=$(python3 -c "import json;print(json.load(open('$OUT/meta.json'))['demo_run'])")
 cp "$OUT"/demo_test.go "$M/$PKG/zz_demo_test.go" 2>/dev/null || cp "$OUT"/*_test.go "$M/$PKG/"
-( cd "$M" && eval "$RUN" >/tmp/tryseed-clean.txt 2>&1 ); CLEAN=$?
+( cd "$M" && eval "$RUN" >$T/clean.txt 2>&1 ); CLEAN=$?
 ( cd "$M" && git apply "$OUT/patch.diff" ) || { echo "PATCH-DOES-NOT-APPLY"; exit 3; }
 ( cd "$M" && go build ./... ) || { echo "DOES-NOT-BUILD"; exit 3; }
-( cd "$M" && eval "$RUN" >/tmp/tryseed-mut.txt 2>&1 ); MUT=$?
+( cd "$M" && eval "$RUN" >$T/mut.txt 2>&1 ); MUT=$?
 rm -f "$M/$PKG/zz_demo_test.go"
 SUITE=$(cd "$M" && go test -vet=off -count=1 ./... 2>&1 | grep -E "^FAIL[[:space:]]+servitor/" | grep -v "servitor/jtp" | wc -l)
 echo "demo: clean-exit=$CLEAN mutated-exit=$MUT suite-new-failures=$SUITE"
-cd /verif && VERIF_REPO="$M" ./check "$ID" "$TIER" > /tmp/tryseed-check.txt 2>&1; RC=$?
-echo "check exit=$RC"; grep -E "^(VIOLATION|INCONCLUSIVE|HELD|KNOWN|  signature)" /tmp/tryseed-check.txt | head -8
+cd /verif && VERIF_REPO="$M" ./check "$ID" "$TIER" > $T/check.txt 2>&1; RC=$?
+echo "check exit=$RC"; grep -E "^(VIOLATION|INCONCLUSIVE|HELD|KNOWN|  signature)" $T/check.txt | head -8
